@@ -231,7 +231,7 @@ def split_current(prog, run, rule):
             if not recs or m.node.name.startswith("_split"):
                 continue
             # the value this method stores into self.datasets (if it stores one)
-            stores = [st for st in ast.walk(m.node) if isinstance(st, ast.Assign) and any(isinstance(t, ast.Attribute) and astq.src(t) == "self.datasets" for t in st.targets)]
+            stores = astq.attr_stores(m.node, "self.datasets")
             for rec in recs:
                 n += 1
                 c = rec["outer_call"]
@@ -251,26 +251,27 @@ def split_current(prog, run, rule):
                 hold = rec["holder"]
                 if hold is not m and getattr(hold, "node", None) is not None:
                     # split and store sit together in a helper: judged there, on the helper's own names
-                    hstores = [st for st in ast.walk(hold.node) if isinstance(st, ast.Assign) and any(isinstance(t, ast.Attribute) and astq.src(t) == "self.datasets" for t in st.targets)]
+                    hstores = astq.attr_stores(hold.node, "self.datasets")
                     raw = (rec["call"].args[:1] or [kw.value for kw in rec["call"].keywords if kw.arg == first] or [None])[0]
-                    if hstores and isinstance(raw, ast.Name) and isinstance(hstores[-1].value, ast.Name):
-                        same = raw.id == hstores[-1].value.id
-                        run.ob(rule, m.qual, role, same, f"helper {hold.node.name}: split of `{raw.id}`, stored list `{hstores[-1].value.id}`", witness=f"{raw.id}|{hstores[-1].value.id}", file=f, node=c)
+                    if hstores and isinstance(raw, ast.Name) and isinstance(hstores[-1][1], ast.Name):
+                        same = raw.id == hstores[-1][1].id
+                        run.ob(rule, m.qual, role, same, f"helper {hold.node.name}: split of `{raw.id}`, stored list `{hstores[-1][1].id}`", witness=f"{raw.id}|{hstores[-1][1].id}", file=f, node=c)
                         continue
                 if not stores:
                     # a method that splits a list without storing one (initialisation from its argument, rollback from the initial copy)
                     run.ob(rule, m.qual, role, True if isinstance(a, (ast.Name, ast.Attribute, ast.Call)) else None, f"`pre_multisetup({txt}, ..)`; the method stores no new dataset list", witness=txt, file=f, node=c)
                     continue
-                sv = astq.expr_at(m, stores[-1], stores[-1].value)
-                same = astq.dump(sv) == astq.dump(a) or (isinstance(stores[-1].value, ast.Name) and isinstance(a, ast.Name) and stores[-1].value.id == a.id)
+                st_stmt, st_val = stores[-1]
+                sv = astq.expr_at(m, st_stmt, st_val)
+                same = astq.dump(sv) == astq.dump(a) or (isinstance(st_val, ast.Name) and isinstance(a, ast.Name) and st_val.id == a.id)
                 # the raw (unexpanded) spelling decides when both are the same local name
                 raw = None
                 for k_ in (rec["call"].args[:1] or [kw.value for kw in rec["call"].keywords if kw.arg == first]):
                     raw = k_
-                if not same and isinstance(raw, ast.Name) and isinstance(stores[-1].value, ast.Name) and raw.id == stores[-1].value.id and rec["holder"] is m:
+                if not same and isinstance(raw, ast.Name) and isinstance(st_val, ast.Name) and raw.id == st_val.id and rec["holder"] is m:
                     same = True
                 run.ob(rule, m.qual, role, same if same else (False if isinstance(a, ast.Name) or txt.startswith("self.") else None),
-                       f"split of `{txt}`, stored list `{astq.src(stores[-1].value, 60)}`", witness=f"{txt}|{astq.src(stores[-1].value, 40)}", file=f, node=c)
+                       f"split of `{txt}`, stored list `{astq.src(st_val, 60)}`", witness=f"{txt}|{astq.src(st_val, 40)}", file=f, node=c)
     if not n:
         run.ob(rule, "pyoma2.setup.multi", "split after preprocessing", None, "no call of pre_multisetup found in MultiSetup_PreGER")
 
